@@ -1,4 +1,4 @@
-\* recorded runs replayed on the mechanism as shipped: recognises the known cache defect (classification only)
+\* recorded runs replayed on the mechanism as shipped before fix 678e809: recognises the known cache defect (classification only)
 CONSTANTS
   Threads = {1, 2, 3, 4}
   CacheMode = "process-wide one entry"
